@@ -121,11 +121,16 @@ impl<F: Read + Seek> BufRead for Stream<F> {
             let offset = self.buf_offset_from_start;
             let minialloc = self.minialloc()?;
             let result = self.buffer.refill_with(remaining, |buf| {
+                // Never read past the length this handle knows about, even if
+                // the directory entry now describes a longer stream (e.g.
+                // because the entry was reused after this handle's stream was
+                // removed); otherwise the position could pass `total_len`.
+                let limit = remaining.min(buf.len() as u64) as usize;
                 read_data_from_stream(
                     &mut minialloc.write().unwrap(),
                     stream_id,
                     offset,
-                    buf,
+                    &mut buf[..limit],
                 )
             });
             if result.is_err() {
